@@ -158,7 +158,7 @@ def probe_history(inp: Dict[str, Any]) -> Dict[str, Any]:
     fresh = _in_fresh_process([inp["job"]])
     # (the heap is poisoned right before the job under test in the history runs: uninitialised reads cannot hide behind zero pages)
     after = _in_fresh_process(list(inp["prefix"]) + [inp["job"]], poison=True)
-    again = _in_fresh_process([inp["job"], inp["job"]], poison=True)
+    again = _in_fresh_process([inp["job"]] * (4 if inp["job"].startswith("far_") else 2), poison=True)   # (uninitialised reads show up only when the block lands on poisoned memory: more tries)
     for lab, o in (("after the history", after), ("on repetition", again)):
         for k_, v_ in o.items():
             if v_ is not None and not np.isfinite(v_).all():
@@ -358,6 +358,7 @@ def gen_cases(ctx: Ctx):
     for i, (a, b) in enumerate(COLLIDE[1:] if ctx.thorough else COLLIDE[1:3]):
         a, b = (a, b) if (ctx.seed + i) % 2 == 0 else (b, a)
         cases.append(("history", {"job": b, "prefix": [a]}))
+    cases.append(("history", {"job": ["far_num", "far_anal"][ctx.seed % 2], "prefix": [str(v) for v in rng.choice(["w_am1", "mix_a", "batch_mndo"], size=2)]}))
     cases.append(("history", {"job": ["far_anal", "far_num"][ctx.seed % 2], "prefix": [str(v) for v in rng.choice(["batch_mndo", "w_am1", "big_am1_sp2", "cis_ch2o", "mix_a"], size=3)]}))
     cases.append(("history", {"job": "pm6_h2s_zd", "prefix": ["pm6_h2s"]}))
     cases.append(("history", {"job": ["w_am1", "pm6_h2s"][ctx.seed % 2], "prefix": [["am1_h2o_zs"], ["pm6_h2s_zd"]][ctx.seed % 2]}))
